@@ -553,7 +553,123 @@ def all_cfgs(q):
                                     complex_per_file=(1, 2), simple_per_file=(0, 2), elements_per_file=(1, 2), p_part_name_differs=0.3))]
 
 
+def run_c14(tier):
+    from . import gen_c14
+    from .model import KEYWORDS
+    v = Verdict("C14", tier, "exploration")
+    root = common.scratch("c14")
+    try:
+        if tier == "quick":
+            r = rng("C14", "keywords")
+            kws = list(dict.fromkeys(gen_c14.ALWAYS + r.sample([k for k in KEYWORDS if k not in gen_c14.ALWAYS], 6)))
+        else:
+            kws = list(KEYWORDS)
+        progs = []
+        base = Program(0, gen_c14.base_program(), root, "baseline")
+        base.port = None
+        progs.append(base)
+        for kw, pos, ss in gen_c14.keyword_matrix(kws):
+            p = Program(len(progs), ss, root, f"keyword:{kw}@{pos}")
+            p.port = None
+            p.c14 = ("keyword", kw, pos, None)
+            progs.append(p)
+        for cls, pos, text, ss in gen_c14.payload_matrix():
+            p = Program(len(progs), ss, root, f"payload:{cls}@{pos}")
+            p.port = None
+            p.c14 = ("payload", cls, pos, text)
+            progs.append(p)
+        progs = run_programs(progs, ["static"])
+        base = progs[0]
+        if base.inconclusive or not base.shape or not base.shape.get("ok") or not base.compile or base.compile[0] != 0:
+            raise Inconclusive(f"the C14 baseline program does not generate/compile: {base.inconclusive or base.findings[:2]}")
+        base_idents = set(base.shape["idents"])
+        evaluated = 0
+        accepted = 0
+        cells = set()
+        outcomes = {}
+        samples = []
+        for p in progs[1:]:
+            if p.inconclusive:
+                continue
+            kind, a, pos, text = p.c14
+            evaluated += 1
+            cells.add((kind, a, pos))
+            gen_ok = p.gen and p.gen.get("outcome") == "ok"
+            files = p.replay_files()
+            if not gen_ok:
+                rules = [f["rule"] for f in p.findings]
+                outcomes[f"{kind}:rejected"] = outcomes.get(f"{kind}:rejected", 0) + 1
+                if "generator-panic" in rules or "generator-died" in rules:
+                    v.violation(f"C14|{kind}|{'kw-class=' + _kw_class(a) if kind == 'keyword' else 'payload-class=' + a}|position={pos}|failure=generator-crash",
+                                {"program": p.label, "findings": p.findings[:2]}, files)
+                elif kind == "keyword":
+                    # a keyword is a legal XML name: rejecting it is not "usable as a name"
+                    v.violation(f"C14|keyword|kw-class={_kw_class(a)}|position={pos}|failure=rejected", {"program": p.label, "findings": p.findings[:2]}, files)
+                continue
+            accepted += 1
+            outcomes[f"{kind}:accepted"] = outcomes.get(f"{kind}:accepted", 0) + 1
+            tag = f"kw-class={_kw_class(a)}" if kind == "keyword" else f"payload-class={a}"
+            for f in p.findings:
+                if f["rule"] == "parse-error":
+                    v.violation(f"C14|{kind}|{tag}|position={pos}|failure=parse-error", {"program": p.label, "keyword_or_payload": a, "error": f.get("error"), "line": f.get("line")}, files)
+                elif f["rule"] == "compile-error":
+                    v.violation(f"C14|{kind}|{tag}|position={pos}|failure={f['code']}", {"program": p.label, "keyword_or_payload": a, "message": f["message"], "text": f["text"]}, files)
+                elif f["rule"] in ("struct-missing", "member-missing") and kind == "keyword":
+                    v.violation(f"C14|keyword|{tag}|position={pos}|failure={f['rule']}", {"program": p.label, "keyword": a, "finding": {k: x for k, x in f.items() if k != 'flat'}}, files)
+            if not p.shape or not p.shape.get("ok"):
+                continue
+            if kind == "payload":
+                idents = set(p.shape["idents"])
+                new = sorted(idents - base_idents)
+                if pos in ("target-namespace", "imported-namespace"):
+                    # a namespace URI legitimately names its module and prefix
+                    import re as _re
+                    new = [i for i in new if not _re.fullmatch(r"mod_[a-z0-9]+", i)]
+                leaked = [i for i in p.shape["idents"] if gen_c14.MARK in i] + [l for l in p.shape["other_lits"] if gen_c14.MARK in l]
+                if new or leaked:
+                    v.violation(f"C14|injection|position={pos}|payload-class={a}|seen-as=identifier-or-code",
+                                {"program": p.label, "new_identifiers": new[:10], "leaked": leaked[:5], "text": text}, files)
+                lits = p.shape["lit_strs"]
+                if pos in ("enumeration", "target-namespace", "imported-namespace"):
+                    if text not in lits:
+                        near = [l for l in lits if gen_c14.MARK in l][:3]
+                        v.violation(f"C14|literal-value|position={pos}|payload-class={a}",
+                                    {"program": p.label, "expected": text, "literals_with_marker": near}, files)
+                if len(samples) < 6 and len(cells) % 23 == 0:
+                    samples.append({"payload_class": a, "position": pos, "text": text, "generator": "accepted"})
+            elif len(samples) < 4 and len(cells) % 31 == 0:
+                samples.append({"keyword": a, "position": pos, "generator": "accepted"})
+        cov = {
+            "evaluations": evaluated, "distinct_nontrivial": len(cells),
+            "rule": "hand-built two-file WSDL program (vf/gen_c14.py) with (a) each keyword of the tier's list (quick: the 12 hardest + 6 seeded; "
+                    "thorough: all strict, reserved and weak keywords of edition 2024) in each of 8 naming positions (local element, attribute, "
+                    "complex type, simple type, global element, operation, part, service) and (b) each of 14 payload classes in each of 9 text "
+                    "positions (enumeration value, numeric facet, length facet, simple/complex documentation, target / imported namespace URI, "
+                    "endpoint address, soapAction). Oracles: syn parse, rustc compile, component still present (keywords), identifier set "
+                    "equal to the payload-free baseline and marker absent from identifiers and non-string literals (payloads), string "
+                    "literal value == original text for enumeration values and namespace URIs. Distinct = (kind, keyword|class, position) cells",
+            "exhaustive": tier == "thorough", "keywords": kws, "generator_accepted": accepted, "outcomes": outcomes, "samples": samples or [{"note": "see cells"}],
+        }
+        v.finish(cov, assumptions=["a generator error on a payload input is acceptable (the property speaks about outputs); a crash is not",
+                                   "rustc (stable, edition 2024) is the authority on identifier legality"], min_evaluations=50)
+    finally:
+        shutil.rmtree(root, ignore_errors=True)
+
+
+def _kw_class(kw):
+    from .model import NOT_RAW, STRICT_KEYWORDS, RESERVED_KEYWORDS
+    if kw in NOT_RAW:
+        return "cannot-be-raw"
+    if kw in STRICT_KEYWORDS:
+        return "strict"
+    if kw in RESERVED_KEYWORDS:
+        return "reserved"
+    return "weak"
+
+
 def run(prop, tier):
+    if prop == "C14":
+        return run_c14(tier)
     q = _quarantine([prop])
     if prop == "C01":
         check_generic("C01", tier, core_cfgs(q), 48, 2000, sig_c01, [], rule=(
